@@ -1,8 +1,9 @@
 (** C07 - queues own their elements: property theorems (statements only; proofs in Proof/RamalheteNode.v).
     [node_dtor] is GENERATED from ramalhete_queue<...>::node::~node() on every run: each
     traits::delete_value(entries[k]) is rendered as incrementing the counter [mem 0 k].
-    pop_idx = 11*p and push_idx = 11*q are ticket counters (step_size 11); push_idx may exceed
-    max_idx = 11*E because every push that finds the node full still increments it. *)
+    S = [C_step_size E] is the generated step_size (1 if 11 divides entries_per_node = E, else 11);
+    pop_idx = S*p and push_idx = S*q are ticket counters; push_idx may exceed max_idx = S*E because
+    every push that finds the node full still increments it. *)
 From Coq Require Import NArith List.
 From XV Require Import Base.Word gen.RamalheteNodeGen Proof.RamalheteNode.
 Import ListNotations.
@@ -10,34 +11,48 @@ Local Open Scope N_scope.
 
 (** MAIN RESULT (all node sizes E, all ticket values, i.e. every node state concurrent pushes and
     pops can leave behind): the destructor destroys exactly the entries of the tickets in
-    [p, min(q,E)), each exactly once, at slot (11*ticket) mod E; tickets below p (already handed to a
+    [p, min(q,E)), each exactly once, at slot (S*ticket) mod E; tickets below p (already handed to a
     consumer) and tickets >= E (beyond max_idx) are never touched *)
 Theorem C07_ramalhete_node_dtor : forall E fuel p q mem,
-  1 <= E -> 11 * E < 2 ^ 31 -> 11 * q < 2 ^ 32 -> (N.to_nat E < fuel)%nat ->
-  node_dtor E fuel (11 * p) (11 * q) mem
-  = Some (fold_left (fun m j => mset m 0 ((11 * j) mod E) (wadd 64 (mget m 0 ((11 * j) mod E)) 1))
+  1 <= E -> C_step_size E * E < 2 ^ 32 -> (N.to_nat E < fuel)%nat ->
+  node_dtor E fuel (C_step_size E * p) (C_step_size E * q) mem
+  = Some (fold_left (fun m j => mset m 0 ((C_step_size E * j) mod E)
+                                 (wadd 64 (mget m 0 ((C_step_size E * j) mod E)) 1))
                     (tickets p (N.min q E)) mem).
 Proof. exact node_dtor_spec. Qed.
 Print Assumptions C07_ramalhete_node_dtor.
 
-(** per slot, when 11 and E are coprime (distinct tickets use distinct slots): consumed / never used
-    entries keep their count, live ones are destroyed exactly once *)
+(** within one node, distinct tickets use distinct entries, for every node size (the step is 1 when
+    11 divides E, otherwise 11 is coprime to E) *)
+Theorem C07_ramalhete_slots_distinct : forall E j1 j2,
+  0 < E -> C_step_size E * E < 2 ^ 32 -> j1 < E -> j2 < E ->
+  (C_step_size E * j1) mod E = (C_step_size E * j2) mod E -> j1 = j2.
+Proof. exact slots_distinct. Qed.
+Print Assumptions C07_ramalhete_slots_distinct.
+
+(** per slot (no coprimality hypothesis is needed any more, see C07_ramalhete_slots_distinct):
+    consumed / never used entries keep their count, live ones are destroyed exactly once *)
 Theorem C07_ramalhete_node_dtor_slots : forall E fuel p q mem,
-  1 <= E -> 11 * E < 2 ^ 31 -> 11 * q < 2 ^ 32 -> (N.to_nat E < fuel)%nat ->
-  N.gcd 11 E = 1 ->
-  exists mem', node_dtor E fuel (11 * p) (11 * q) mem = Some mem' /\
+  1 <= E -> C_step_size E * E < 2 ^ 32 -> (N.to_nat E < fuel)%nat ->
+  exists mem', node_dtor E fuel (C_step_size E * p) (C_step_size E * q) mem = Some mem' /\
     (forall j, j < E -> j < p \/ N.min q E <= j ->
-       mget mem' 0 ((11 * j) mod E) = mget mem 0 ((11 * j) mod E)) /\
+       mget mem' 0 ((C_step_size E * j) mod E) = mget mem 0 ((C_step_size E * j) mod E)) /\
     (forall j, p <= j < N.min q E ->
-       mget mem' 0 ((11 * j) mod E) = wadd 64 (mget mem 0 ((11 * j) mod E)) 1) /\
-    (forall j, p <= j < N.min q E -> mget mem 0 ((11 * j) mod E) < 2 ^ 64 - 1 ->
-       mget mem' 0 ((11 * j) mod E) = mget mem 0 ((11 * j) mod E) + 1) /\
+       mget mem' 0 ((C_step_size E * j) mod E) = wadd 64 (mget mem 0 ((C_step_size E * j) mod E)) 1) /\
+    (forall j, p <= j < N.min q E -> mget mem 0 ((C_step_size E * j) mod E) < 2 ^ 64 - 1 ->
+       mget mem' 0 ((C_step_size E * j) mod E) = mget mem 0 ((C_step_size E * j) mod E) + 1) /\
     (forall b k, b <> 0 -> mget mem' b k = mget mem b k).
 Proof. exact node_dtor_consumed_untouched. Qed.
 Print Assumptions C07_ramalhete_node_dtor_slots.
 
-(** the witness of the repaired defect: E = 2, three pushes (q = 3 > E), one pop (p = 1):
+(** the witness of the repaired defect: E = 2 (step 11), three pushes (q = 3 > E), one pop (p = 1):
     only entry 1 (ticket 1) is destroyed; entry 0 (ticket 0, consumed) is not *)
 Example C07_witness : match node_dtor 2 10 11 33 (fun _ _ => 0) with
   | Some m => mget m 0 0 = 0 /\ mget m 0 1 = 1 | None => False end.
 Proof. vm_compute. split; reflexivity. Qed.
+
+(** a node whose size is a multiple of 11 (E = 22, step 1): all 22 tickets pushed, none popped:
+    every one of the 22 entries is destroyed exactly once *)
+Example C07_witness_22 : match node_dtor 22 30 0 22 (fun _ _ => 0) with
+  | Some m => forallb (fun k => mget m 0 k =? 1) (map N.of_nat (seq 0 22)) = true | None => False end.
+Proof. vm_compute. reflexivity. Qed.
